@@ -7,11 +7,11 @@ VERIF = os.path.dirname(os.path.dirname(os.path.abspath(__file__)))
 CLAIMED = {
  # id: (level, text, note, technique, design_ref)
  "C05": ("exploration",
-   "Seeded search over %define/use/include histories (thorough: all 3.19 million flat histories of <=4 steps enumerated, up to 6 steps sampled; quick: <=2 steps enumerated), each rendered into 1..3 resources on the simulated transport and loaded three times against one schema object; outcome compared step by step with a reference model of the namespace; entry by URL, file object, reused ConfigLoader or with an override; environment variables, rewritten fragments and transport faults on include targets. Evidence over the sampled histories, not proof.",
+   "Seeded search over %define/use/include histories (thorough: all 3.19 million flat histories of <=4 steps enumerated, up to 6 steps sampled; quick: <=2 steps enumerated), each rendered into 1..3 resources on the simulated transport and loaded three times against one schema object; outcome compared step by step with a reference model of the namespace; entry by URL, file object, reused ConfigLoader or with an override; environment variables, rewritten fragments and transport faults on include targets; a load started by a datatype on the same ConfigLoader while the first one is between two of its lines; warnings turned into errors; a tenth of the budget under python -O. Evidence over the sampled histories, not proof.",
    "Trusts the reference model in zcsim/props/c05.py and the simulated transport; real ZConfig parser/loader/substitution.",
    "deterministic simulation: seeded history search against an executable reference model, transport faults on include targets", "4/C05"),
  "C06": ("exploration",
-   "Seeded search over (schema, text, cut layout) scenarios on the simulated transport with decoy resources at every wrongly-resolved URL; differential oracle inlined-vs-cut plus recorded open history; torn-cut (refused by the fragment's own parser) and missing-fragment faults must reject; variants for redefinition across boundaries, includes through a %define, %import inside fragments, deep chains, big multi-byte fragments, odd first characters; real-file stratum with cwd decoys, symlinks and a top resource that exists only in memory.",
+   "Seeded search over (schema, text, cut layout) scenarios on the simulated transport with decoy resources at every wrongly-resolved URL; differential oracle inlined-vs-cut plus recorded open history; torn-cut (refused by the fragment's own parser) and missing-fragment faults must reject; variants for redefinition across boundaries, includes through a %define, %import inside fragments, deep chains, big multi-byte fragments, odd first characters; real-file stratum with cwd decoys, symlinks, a top resource that exists only in memory, a fragment behind a pipe, the current directory removed, few file descriptors left, path-valued keys beside a fragment; loads started inside a fragment on another loader and on the busy loader.",
    "Trusts the cutter (balanced ranges) and stdlib urljoin for computing expected fragment URLs. Include chains deeper than the interpreter's stack allows (about 197 levels) are the recorded finding KF-4.",
    "deterministic simulation: multi-resource I/O on a simulated transport with decoys, differential oracle + I/O history check, torn/lost fragment faults", "4/C06"),
  "C07": ("exploration",
@@ -20,19 +20,19 @@ CLAIMED = {
    "deterministic simulation: seeded storage-corruption and open-fault injection, exception-class oracle", "4/C07"),
  "C08": ("fault_enumeration",
    "For every sampled scenario (schema, accepted text, 1..4 resources, entry mode) every applicable (resource, position, typed fault kind) injection is executed and the raised error must carry the culprit's line and URL. Entry by URL, file object (with / without URL), reused loader (every injection follows earlier rejected loads) or with an override. Exhaustive over the failure points of each scenario, sampled over scenarios.",
-   "Culprit line predicted by zcsim/textfaults.py; accepted injections are generator waste, not violations.",
+   "Culprit line predicted by zcsim/textfaults.py; accepted injections are generator waste, not violations. Modes include one ConfigLoader for the whole scenario, a real file opened by a relative name (undecodable bytes at every line, also behind a preamble longer than one decoding block), URLs with user information, an unnamed text whose first section starts another unnamed load on the same loader, datatypes that load a configuration of their own before they reject.",
    "deterministic simulation: exhaustive single-fault enumeration per scenario over simulated resources, fault-localisation oracle", "4/C08"),
  "C12": ("exploration",
    "Seeded histories of up to 4 loads against one schema object with generated component packages served by a simulated import system; reference model of the per-load vocabulary and slot admission; package faults (import error, not a package, missing component, get_data EIO, component breaking half-way); a twin package with same-named types separates the recorded implementer-leak findings (KF-2, KF-3) from everything else.",
-   "Trusts the vocabulary model in zcsim/props/c12.py; component packages are simulated (sys.meta_path finder).",
+   "Trusts the vocabulary model in zcsim/props/c12.py; component packages are simulated (sys.meta_path finder): plain, non-ASCII, hyphenated and dotted names (a parent package that shadows the sub-package name), packages spread over several path entries, components with a byte order mark; one SchemaLoader serving a sibling schema first; a load started inside a load; the SchemaLoader twin probe reports the recorded finding KF-6.",
    "deterministic simulation: seeded load histories with import-system faults against a reference model of the admissible set", "4/C12"),
  "C13": ("exploration",
    "Seeded histories of up to 8 operations (valid/invalid loads failing at every stage, %import, overrides, hostile mutation of returned data, schema re-load) against one schema object, compared step by step (outcome and error text) with fresh schema replicas - from the text or through loadSchema(url) - and with a structural schema digest; a second stratum runs histories of logging configurations against the shipped logger component.",
-   "Digest uses the public schema description API; callbacks are stubs.",
+   "Digest uses the public schema description API; callbacks are stubs. A seventh of the histories start a second load against the same schema object while the first is between two of its lines (reference: the inner load gets a schema copy of its own).",
    "deterministic simulation: history-vs-fresh-replica differential (linearizability-style) with fault injection at every load stage", "4/C13"),
  "C18": ("exploration",
    "Seeded real-file-system universes (scratch dir, <=3 levels, URL-neutral odd file names, decoys in cwd and parents), chdir as an operation, four entry points for schema and configuration compared with each other and with the in-memory expectation; one reused loader across rewritten files, a failed load and a chdir; fragment references must be rejected; exhaustive short-string invariants for url helpers.",
-   "Real file system and stock urllib FileHandler; the url-helper sub-clause is input enumeration (stated in DESIGN).",
+   "Real file system and stock urllib FileHandler; the url-helper sub-clause is input enumeration (stated in DESIGN). Phases: twin tree + chdir, current directory removed, files rewritten between loads of one loader, a missing include with decoys under the current directory, one SchemaLoader after a failed load, a load started while another is inside an included file, resources that are pipes, a file named -, file names differing in letter case only.",
    "deterministic simulation: seeded file-system/cwd environments with decoys, entry-point differential + open-history oracle", "4/C18"),
  "C19": ("fault_enumeration",
    "For every sampled schema-load or config-load scenario (<=5 resources over file:, http:, package: URLs) a reconnaissance run records every seam call and then one run per failure point (each open, stream read, get_data, each readline/read call of each resource incl. EOF, each conversion / section-datatype / key-type call, typed text faults; for a third of the points a second faulty load follows on the same loader) checks closure of every Resource, transport stream, simulated connection (observed when the exception reaches the caller) and of the stream handed to load*File, close-before-parse ordering, an unchanged fault-free rerun, an unchanged use-without-import probe and an unchanged twin-import probe (a same-named type of another package must not get past the abstract slot after a failed load; the stale implementer name found there is the recorded finding KF-5); failure points include interruptions that are BaseException. Exhaustive over failure points per scenario, sampled over scenarios.",
